@@ -1408,8 +1408,10 @@ class Backend:
         out_dir = os.path.join('{prefix}', os.path.dirname(depmf_path))
         mfobj = {'type': 'dependency manifest', 'version': '1.0',
                  'projects': {k: v.to_json() for k, v in self.build.dep_manifest.items()}}
-        with open(ifilename, 'w', encoding='utf-8') as f:
+        tmpfilename = ifilename + '~'
+        with open(tmpfilename, 'w', encoding='utf-8') as f:
             f.write(json.dumps(mfobj))
+        mesonlib.replace_if_different(ifilename, tmpfilename)
         # Copy file from, to, and with mode unchanged
         d.data.append(InstallDataBase(ifilename, ofilename, out_name, None, '',
                                       tag='devel', data_type='depmf'))
